@@ -1,13 +1,17 @@
 /-
-  Sem/Errors.lean — executable model of typedpy's error reporting for *flat* classes (fields are
-  scalars or collections of scalars):
+  Sem/Errors.lean — executable model of typedpy's error reporting: classes whose fields are
+  scalars, nested structures (class references, inline StructureReference) and collections of
+  these at ANY nesting depth, through the constructor and through deserialization:
 
   (a) message shapes (`typedpy/fields/*.py`, `structures.py`, `commons.py`):
         `<path>: Got <v>; <problem>`      (`gotFirst`: Number, String, Enum, Sized, type/unique/length
                                             checks of Array/Deque/Set/Tuple)
         `<path>: <problem>; Got <v>`      (`gotLast`: TypedField/Boolean type check, `validate_size`)
         `<path>: <problem>`               (`plain`: Map "Expected a dict")
-      `<path>` = top-level field name + element suffix (`_<index>`, `_key`, `_value`, none for Set);
+      `<path>` = top-level field name + ONE element suffix per nesting level (`_<index>`, `_key`,
+      `_value`, none for Set): `locate`, structural recursion over the declaration tree;
+      deserialization: accept / reject from `deser` (Sem/Deser.lean), the guaranteed beginning of
+      every message from the wrapper rules (`dHead`); class names typedpy derives (`derivedName`);
       `Structure.__init__` prefixes `<Class>.` (fail-fast) and `raise_errs_if_needed` renders the
       collected list through `json.dumps`;
   (b) the three regexes of `typedpy/errors.py` as explicit matchers over `List Char`, and the
